@@ -84,22 +84,29 @@ def cls(x):
 
 class Exp:
     """Set of acceptable results."""
-    __slots__ = ("ints", "floats", "ulps", "anynum", "anyzero", "note", "exact")
+    __slots__ = ("ints", "floats", "ulps", "anynum", "anyzero", "note", "exact", "anyfloat", "err_ok")
 
-    def __init__(self, ints=(), floats=(), ulps=0, anynum=False, note="", exact=None, anyzero=False):
+    def __init__(self, ints=(), floats=(), ulps=0, anynum=False, note="", exact=None, anyzero=False,
+                 anyfloat=False, err_ok=False):
         self.ints = set(ints)
         self.floats = list(floats)
         self.ulps = ulps
         self.anynum = anynum      # any int / float / error value: only "no crash" is required
-        self.anyzero = anyzero    # sign of a zero result is not specified
+        self.anyzero = anyzero    # sign of a *float* zero result is not specified (never forgives an int for a float)
+        self.anyfloat = anyfloat  # value not documented, but a double operation: any float or an error value, never an int
+        self.err_ok = err_ok      # an error value is acceptable besides the listed numbers
         self.note = note          # sub-class of the case, goes into the violation signature
         self.exact = exact        # exact mathematical result when it is an integer (to recognise wraps)
 
     def describe(self):
         if self.anynum:
             return "any number or error value (no crash)"
+        if self.anyfloat:
+            return "any float or an error value (a double operation: not an int, no crash)"
         parts = [f"int {v}" for v in sorted(self.ints)]
         parts += [f"float {x!r}" + (f" (+-{self.ulps} ulp)" if self.ulps else "") for x in self.floats]
+        if self.err_ok:
+            parts.append("an error value")
         return " or ".join(parts)
 
 
@@ -108,6 +115,13 @@ ANY = Exp(anynum=True, note="undocumented-domain")
 
 def any_(note):
     return Exp(anynum=True, note=note)
+
+
+def anyfloat_(note):
+    """The documentation gives no value (zero float divisor, Inf/NaN through % ...), but the statement's
+    "mixed int/float operations are IEEE-754 double operations" still fixes the TYPE: a float (or an
+    error value), never an int."""
+    return Exp(anyfloat=True, note=note)
 
 
 # ------------------------------------------------------------------------------------------
@@ -245,7 +259,7 @@ def _int_divide(a, b):
         return Exp(floats=[big_to_float(q), ieee_floor(F(a) / F(b))], exact=q, note="overflow")
     x, y = F(a), F(b)
     if y == 0:
-        return any_("zero-divisor")
+        return anyfloat_("zero-divisor")
     if not (finite(x) and finite(y)):
         return Exp(floats=[ieee_floor(ieee_div(x, y))], note="ieee-nonfinite", anyzero=True)
     alts = [ieee_floor(x / y)]
@@ -269,13 +283,13 @@ def _modulus(a, b):
         return Exp(ints=[r], exact=r, note=note)
     x, y = F(a), F(b)
     if y == 0:
-        return any_("zero-divisor")
+        return anyfloat_("zero-divisor")
     if not (finite(x) and finite(y)):
-        return any_("nonfinite-operand")
+        return anyfloat_("nonfinite-operand")
     alts = []
     q = x / y
     if not finite(q):
-        return any_("quotient-overflow")    # neither documented formula is meaningful here
+        return anyfloat_("quotient-overflow")    # neither documented formula is meaningful here
     alts.append(x - y * ieee_floor(q))
     try:
         alts.append(x % y)
@@ -285,14 +299,18 @@ def _modulus(a, b):
 
 
 POW_ULPS = 256
+POW_ULPS_PER_UNIT = 1.25
 
 
 def pow_ulps(y):
-    """Go's math.Pow multiplies by repeated squaring, so its relative error grows with |y|
-    (measured: ~1e-11 at |y| = 5e5).  reference-dsl-operators.md documents the math functions as
-    pass-throughs to the Go library, so that inaccuracy is not Miller's: tolerance 256 + 4|y| ulp."""
+    """reference-dsl-operators.md documents the math functions as pass-throughs to the Go library, whose
+    math.Pow multiplies by repeated squaring: the rounding error of the first squarings (<= 2^-53 relative
+    each) is amplified by the remaining exponent, so the result is off by up to |y| * 2^-53 relative, i.e.
+    between |y|/2 and |y| ulp in the worst case (measured here: up to ~0.25 |y| ulp).  That inaccuracy is not
+    Miller's: tolerance 256 + 1.25 |y| ulp (|y| capped at 2^40).  Anything looser than the library's own
+    worst case would let a wrong-but-close power through."""
     try:
-        return POW_ULPS + 4 * int(min(abs(y), 2.0 ** 40))
+        return POW_ULPS + int(POW_ULPS_PER_UNIT * min(abs(y), 2.0 ** 40))
     except (ValueError, OverflowError):
         return POW_ULPS
 
@@ -383,24 +401,34 @@ def _shift(op, a, b):
 
 
 def _minmax(op, a, b):
+    """int,int -> the int (documented int-preserving).  With a float operand the operation is a double
+    operation (statement), so the float of the winner is always acceptable; the winner itself is accepted
+    as an int only when the winning OPERAND is an int ("min of n numbers" returning its argument).  An
+    integral float winner is never an int.  A NaN operand: NaN, or the other operand (either reading of
+    "number wins"), as float or in its own type; never some other number."""
     if is_int(a) and is_int(b):
         r = min(a, b) if op == "min" else max(a, b)
         return Exp(ints=[r], exact=r, note="int")
-    if (not is_int(a) and a != a) or (not is_int(b) and b != b):
-        return any_("nan-operand")
+    an = (not is_int(a)) and a != a
+    bn = (not is_int(b)) and b != b
+    if an or bn:
+        e = Exp(note="nan-operand", err_ok=True)
+        e.floats.append(NAN)
+        for x, isn in ((a, an), (b, bn)):
+            if not isn:
+                e.floats.append(F(x))
+                if is_int(x):
+                    e.ints.add(x)
+        return e
     w = (min if op == "min" else max)(a, b)        # Python compares int with float exactly
     cands = [w]
     if F(a) == F(b):                                # equal as doubles: either operand is a fair answer
         cands = [a, b]
     e = Exp(note="mixed" if is_int(a) != is_int(b) else "ieee", anyzero=True)
     for x in cands:
+        e.floats.append(F(x))
         if is_int(x):
             e.ints.add(x)
-            e.floats.append(F(x))
-        else:
-            e.floats.append(x)
-            if finite(x) and x == math.floor(x) and fits(int(x)):
-                e.ints.add(int(x))
     return e
 
 
@@ -408,27 +436,31 @@ def _roundm(a, m):
     if is_int(a) and is_int(m):
         if m == 0:
             return any_("zero-divisor")
-        k = a // m                                   # floor
-        lo, hi = k * m, (k + 1) * m
-        dlo, dhi = abs(a - lo), abs(hi - a)
-        if dlo < dhi:
-            c = [lo]
-        elif dhi < dlo:
-            c = [hi]
-        else:
-            c = [lo, hi]                             # tie: direction not pinned by the docs
-        if not all(fits(x) for x in c):
-            return any_("overflow")
-        note = "int"
+        # help text: "roundm($x,$m) is the same as round($x/$m)*$m"; round() is to the nearest integer and
+        # (as for the float case, C round()/Go math.Round) halves go away from zero.  On ints the quotient
+        # is taken exactly (int-preserving function): q = a/m as a rational.
+        n, d = (a, m) if m > 0 else (-a, -m)         # q = n/d, d > 0
+        k, r = divmod(abs(n), d)
+        tie = (2 * r == d)
+        if 2 * r >= d:
+            k += 1
+        if n < 0:
+            k = -k
+        res = k * m
+        note = "int-tie" if tie else "int"
         if abs(a) > (1 << 53) or abs(m) > (1 << 53):
-            note = "int-beyond-2^53"
-        return Exp(ints=c, note=note)
+            note += "-beyond-2^53"
+        if not fits(res):
+            # the nearest multiple does not exist in int64: a float near it, or an error value; never a
+            # wrapped or unrelated int
+            return Exp(floats=[big_to_float(res)], ulps=4, err_ok=True, exact=res, note="overflow")
+        return Exp(ints=[res], note=note)
     x, y = F(a), F(m)
     if y == 0 or not (finite(x) and finite(y)):
-        return any_("zero-or-nonfinite")
+        return anyfloat_("zero-or-nonfinite")
     q = x / y
     if not finite(q):
-        return any_("overflow")
+        return anyfloat_("overflow")
     # help text: roundm($x,$m) is the same as round($x/$m)*$m
     return Exp(floats=[round_half_away(q) * y], note="ieee", anyzero=True, ulps=1)
 
@@ -477,7 +509,8 @@ def _unary(op, a):
         return Exp(floats=[round_half_away(x)], note="ieee", anyzero=True)
     if op == "sgn":
         if x != x:
-            return any_("nan-operand")
+            # "+1, 0, -1 for positive, zero, negative": NaN is none of them; NaN (IEEE) or 0 or an error
+            return Exp(floats=[NAN, 0.0], note="nan-operand", anyzero=True, err_ok=True)
         return Exp(floats=[float((x > 0) - (x < 0))], note="ieee", anyzero=True)
     raise KeyError(op)
 
@@ -486,31 +519,50 @@ def _unary(op, a):
 # ternary modular functions
 
 def _modular(op, a, b, m):
+    """help: "a + b mod m (integers)".  m > 0: the exact residue in 0..m-1.  m < 0 is not spelled out:
+    both sign conventions are accepted - the residue with the sign of the modulus (the "pythonic"
+    convention the docs use for %) and the residue modulo |m| - and so is an error value; any other
+    number is not a residue of the exact result at all.  m = 0 and float operands: docs silent."""
     if not (is_int(a) and is_int(b) and is_int(m)):
         return any_("float-operand")
-    if m <= 0:
-        return any_("modulus<=0")
+    if m == 0:
+        return any_("modulus=0")
     # the note says which hazard the case carries (the expectation is the same: exact arithmetic)
     if op == "madd":
-        r = (a + b) % m
-        note = "small" if fits(a + b) else "intermediate-beyond-int64"
+        x = a + b
+        note = "small" if fits(x) else "intermediate-beyond-int64"
     elif op == "msub":
-        r = (a - b) % m
-        note = "small" if fits(a - b) else "intermediate-beyond-int64"
+        x = a - b
+        note = "small" if fits(x) else "intermediate-beyond-int64"
     elif op == "mmul":
-        r = (a * b) % m
-        note = "small" if fits(a * b) else "intermediate-beyond-int64"
+        x = a * b
+        note = "small" if fits(x) else "intermediate-beyond-int64"
     else:
         if b < 0:
-            return any_("negative-exponent")
-        r = pow(a, b, m)
+            # a ** b mod m with b < 0 is a modular inverse power where one exists; docs silent: that value
+            # (either sign convention) or an error value
+            e = Exp(err_ok=True, note="negative-exponent")
+            try:
+                r = pow(a, b, abs(m))
+                e.ints.update(x for x in (r, r % m) if fits(x))
+            except ValueError:
+                pass
+            return e
+        x = None
         if b <= 1:
             note = "exponent-0-or-1"
-        elif max(abs(a), m) > 3037000499:
+        elif max(abs(a), abs(m)) > 3037000499:
             note = "intermediate-beyond-int64"       # a residue squared may exceed 2^63-1
         else:
             note = "small"
-    return Exp(ints=[r], exact=r, note=note)
+    if m > 0:
+        r = x % m if x is not None else pow(a, b, m)
+        return Exp(ints=[r], exact=r, note=note)
+    um = -m
+    r = x % um if x is not None else pow(a, b, um)          # 0 .. |m|-1
+    rs = r % m                                               # sign of the modulus
+    e = Exp(ints=[v for v in (r, rs) if fits(v)], err_ok=True, note="negative-modulus:" + note)
+    return e
 
 
 BINARY = ["+", "-", "*", "/", "//", "%", "**", "pow", ".+", ".-", ".*", "./", "&", "|", "^",
@@ -557,16 +609,23 @@ def judge(e, got):
         if t in ("int", "float", "error"):
             return None
         return ("not-a-number-or-error", f"result is of type {t}")
+    if e.anyfloat:
+        if t in ("float", "error"):
+            return None
+        if t == "int":
+            return ("int-for-float", f"got int {got[1]} from an operation with a float operand")
+        return ("not-a-number-or-error", f"result is of type {t}")
     if t == "int":
         v = got[1]
         if v in e.ints:
-            return None
-        if e.anyzero and v == 0 and any(x == 0 for x in e.floats):
             return None
         if not e.ints and e.floats:
             if e.exact is not None and not fits(e.exact) and v == wrap(e.exact):
                 return ("wrapped-int", f"exact result {e.exact} does not fit in int64; got the wrapped int {v}")
             return ("int-for-float", f"got int {v}")
+        if any(bits(float(v)) == bits(y) for y in e.floats if finite(y)) or (
+                e.anyzero and v == 0 and any(y == 0 for y in e.floats)):
+            return ("int-for-float", f"got int {v} where the winning operand / the operation is a float")
         return ("value", f"got int {v}")
     if t == "float":
         x = got[1]
@@ -583,5 +642,7 @@ def judge(e, got):
             return ("float-for-int", f"got float {x!r}")
         return ("value", f"got float {x!r}")
     if t == "error":
+        if e.err_ok:
+            return None
         return ("error-value", "got an error value where the documentation defines a number")
     return ("not-a-number-or-error", f"result is of type {t}")
